@@ -11,6 +11,7 @@ import (
 	"flag"
 	"fmt"
 	"os"
+	"os/exec"
 	"path/filepath"
 	"sort"
 	"strconv"
@@ -27,10 +28,20 @@ type pkgRef struct {
 	Pattern string `json:"pattern"`
 }
 
+type boundedSpec struct {
+	Test  string `json:"test"`  // file under /verif/bounded
+	Dir   string `json:"dir"`   // module directory (default /repo)
+	Pkg   string `json:"pkg"`   // package pattern (default ./vgirpc)
+	Bound string `json:"bound"` // the stated bound
+}
+
 type propConf struct {
-	Pkgs     []pkgRef `json:"pkgs"`
-	Residual []string `json:"residual"`
-	Assumed  []string `json:"assumed"`
+	Pkgs        []pkgRef      `json:"pkgs"`
+	Residual    []string      `json:"residual"`
+	Assumed     []string      `json:"assumed"`
+	Bounded     []boundedSpec `json:"bounded"`
+	Level       string        `json:"level"`       // evidence level (default proof)
+	Explanation string        `json:"explanation"` // for level other
 }
 
 type knownFinding struct {
@@ -353,6 +364,23 @@ func cmdCheck(args []string) int {
 	if len(toolErrs) > 0 && exit == 0 {
 		return undecided("solver rejected generated queries (tool failure, not a violation): " + strings.Join(toolErrs, " | "))
 	}
+	// bounded stand-ins (labelled bounded, reported separately, never counted as proved)
+	var boundedReports []map[string]any
+	for _, bs := range conf.Bounded {
+		rep, failed := runBounded(*verif, *prop, bs)
+		boundedReports = append(boundedReports, rep)
+		if failed {
+			violations++
+			exit = 1
+			os.MkdirAll(replayDir, 0o755)
+			rp := filepath.Join(replayDir, "bounded__"+fileSafe(bs.Test)+".json")
+			rb, _ := json.MarshalIndent(map[string]any{"property": *prop, "obligation": "bounded:" + bs.Test, "kind": "bounded stand-in",
+				"bound": bs.Bound, "replayed_on_code": true, "failing_input": rep["output"]}, "", " ")
+			os.WriteFile(rp, rb, 0o644)
+			fmt.Printf("VIOLATION property=%s replay=%s\n", *prop, rp)
+			fmt.Printf("  bounded stand-in %s failed on the real code: %v\n", bs.Test, firstLine(fmt.Sprint(rep["output"])))
+		}
+	}
 	wall := time.Since(start).Seconds()
 	fmt.Printf("property %s tier %s: %d obligations, %d discharged, %d known-finding, %d violated (%.1fs wall, %.1fs solver)\n",
 		*prop, *tier, len(allObls), discharged, knownHits, violations, wall, solverSecs)
@@ -393,7 +421,7 @@ func cmdCheck(args []string) int {
 		}
 		assumptions = append(assumptions, conf.Assumed...)
 		ev := map[string]any{
-			"property_id": *prop, "tier": *tier, "seed": seed, "level": "proof",
+			"property_id": *prop, "tier": *tier, "seed": seed, "level": levelOr(conf.Level, "proof"),
 			"coverage": map[string]any{
 				"obligations": len(allObls) - knownHits, "discharged": discharged,
 				"known_finding_obligations":                knownHits,
@@ -407,6 +435,8 @@ func cmdCheck(args []string) int {
 				"abstracted_constructs":                    abs,
 				"residual_not_covered":                     conf.Residual,
 				"samples":                                  samples,
+				"bounded_stand_ins":                        boundedReports,
+				"explanation":                              conf.Explanation,
 			},
 			"assumptions": assumptions,
 			"wall_s":      round2(wall),
@@ -417,6 +447,76 @@ func cmdCheck(args []string) int {
 		os.WriteFile(filepath.Join(*verif, "evidence", *prop+".json"), b, 0o644)
 	}
 	return exit
+}
+
+func levelOr(a, b string) string {
+	if a != "" {
+		return a
+	}
+	return b
+}
+
+func firstLine(s string) string {
+	for _, l := range strings.Split(s, "\n") {
+		if strings.Contains(l, "_test.go:") {
+			return strings.TrimSpace(l)
+		}
+	}
+	if i := strings.Index(s, "\n"); i > 0 {
+		return s[:i]
+	}
+	return s
+}
+
+// runBounded runs a bounded exhaustive stand-in (an in-package test injected by overlay) against
+// the current tree. It is labelled bounded and never counted among the discharged obligations.
+func runBounded(verif, prop string, bs boundedSpec) (map[string]any, bool) {
+	dir, pkg := bs.Dir, bs.Pkg
+	if dir == "" {
+		dir = "/repo"
+	}
+	if pkg == "" {
+		pkg = "./vgirpc"
+	}
+	src := filepath.Join(verif, "bounded", bs.Test)
+	rep := map[string]any{"test": bs.Test, "bound": bs.Bound, "label": "BOUNDED (not a proof; not counted in obligations/discharged)"}
+	tmp, err := os.MkdirTemp("", "verif-bounded-")
+	if err != nil {
+		rep["output"] = err.Error()
+		return rep, false
+	}
+	defer os.RemoveAll(tmp)
+	pkgDir := filepath.Join(dir, strings.TrimPrefix(pkg, "./"))
+	ov := map[string]map[string]string{"Replace": {filepath.Join(pkgDir, "zz_verif_bounded_test.go"): src}}
+	ob, _ := json.Marshal(ov)
+	ovf := filepath.Join(tmp, "ov.json")
+	os.WriteFile(ovf, ob, 0o644)
+	outf := filepath.Join(tmp, "counts.json")
+	t0 := time.Now()
+	cmd := exec.Command("bash", "-c", fmt.Sprintf("cd %q && go test -overlay %q -vet=off -count=1 -timeout 600s -run '^TestVerifBounded$' %s", dir, ovf, pkg))
+	cmd.Env = append(os.Environ(), "VERIF_BOUNDED_OUT="+outf)
+	out, _ := cmd.CombinedOutput()
+	rep["wall_s"] = round2(time.Since(t0).Seconds())
+	s := string(out)
+	if len(s) > 4000 {
+		s = s[:4000] + "\n...(truncated)"
+	}
+	if b, err := os.ReadFile(outf); err == nil {
+		var counts map[string]any
+		if json.Unmarshal(b, &counts) == nil {
+			rep["counts"] = counts
+		}
+	}
+	failed := strings.Contains(s, "--- FAIL: TestVerifBounded")
+	built := strings.Contains(s, "ok  ") || failed
+	rep["result"] = map[bool]string{true: "FAILED", false: "passed"}[failed]
+	if !built {
+		rep["result"] = "did not run"
+	}
+	if failed || !built {
+		rep["output"] = s
+	}
+	return rep, failed
 }
 
 var knownCache []knownFinding
